@@ -314,6 +314,63 @@ int main(int argc, char **argv) {
       Token *tok = first_token(text);
       join_adjacent_string_literals(tok);
       printf("join "); print_str(tok); printf("\n");
+    } else if (!strcmp(op, "joinb") && arg) {
+      // a whole token list: every argument is the text of one token, separated by one space, then a newline and EOF;
+      // prints every token after join_adjacent_string_literals: string literals with element type, array_len and the
+      // ty->size bytes at str, any other token as O
+      char *text = calloc(1, 1 << 16); int n = 0; int bad = 0;
+      for (char *a = arg; a; a = strtok(NULL, " \n")) {
+        int len; char *p = parse_bytes(a, &len);
+        if (!p) { bad = 1; break; }
+        if (n) text[n++] = ' ';
+        memcpy(text + n, p, len); n += len;
+      }
+      if (bad) { printf("bad-op\n"); continue; }
+      text[n++] = '\n';
+      arm();
+      if (setjmp(on_error)) { printf("joinb err %s\n", err_name()); continue; }
+      Token *tok = first_token(text);
+      join_adjacent_string_literals(tok);
+      printf("joinb");
+      for (Token *t = tok; t->kind != TK_EOF; t = t->next) {
+        if (t->kind == TK_STR) {
+          printf(" S:%s:%d:", ty_name(t->ty->base), t->ty->array_len);
+          print_bytes(t->str, t->ty->size);
+        } else printf(" O");
+      }
+      printf("\n");
+    } else if (!strcmp(op, "filej") && arg) {
+      // a file through read_file(), tokenize_file() (phases, tokenize) and join_adjacent_string_literals(); prints every token
+      int len; char *p = parse_bytes(arg, &len);
+      if (!p || !tmp_path) { printf("bad-op\n"); continue; }
+      FILE *fp = fopen(tmp_path, "wb");
+      if (!fp) { printf("crash cannot write %s\n", tmp_path); _exit(0); }
+      fwrite(p, 1, len, fp);
+      fclose(fp);
+      arm();
+      if (setjmp(on_error)) { printf("filej err %s\n", err_name()); continue; }
+      Token *tok = tokenize_file(tmp_path);
+      if (!tok) { printf("filej err unreadable\n"); continue; }
+      join_adjacent_string_literals(tok);
+      printf("filej");
+      for (Token *t = tok; t->kind != TK_EOF; t = t->next) {
+        if (t->kind == TK_STR) {
+          printf(" S:%s:%d:", ty_name(t->ty->base), t->ty->array_len);
+          print_bytes(t->str, t->ty->size);
+        } else printf(" O");
+      }
+      printf("\n");
+    } else if (!strcmp(op, "rdf") && arg) {
+      // read_file() on a file with these bytes: the returned C string and its terminator
+      int len; char *p = parse_bytes(arg, &len);
+      if (!p || !tmp_path) { printf("bad-op\n"); continue; }
+      FILE *fp = fopen(tmp_path, "wb");
+      if (!fp) { printf("crash cannot write %s\n", tmp_path); _exit(0); }
+      fwrite(p, 1, len, fp);
+      fclose(fp);
+      char *q = read_file(tmp_path);
+      if (!q) { printf("rdf err unreadable\n"); continue; }
+      printf("rdf "); print_bytes(q, strlen(q) + 1); printf("\n");
     } else {
       printf("bad-op\n");
     }
